@@ -443,8 +443,8 @@ class P(Property):
 
     def shrink_candidates(self, case):
         w = case.split()
-        if len(w) != 5 or not w[4].startswith('sched='):
-            return []
+        if len(w) != 5 or not w[4].startswith('sched=') or w[0] != 'sf':
+            return []      # (family sfx: the completing tail is part of what is judged, the case is kept whole)
         toks = w[4][6:].split(',')
         out = []
         for k in range(len(toks)):
